@@ -32,7 +32,7 @@ def run(ctx):
     ]
 
 
-def slice_contracted(ctx, rng, n_cases):
+def slice_contracted(ctx, rng, n_cases, only="C02/"):
     """Engine-level runs on a *contracted* population (what a deme looks like after many
     generations): parents within 1e-9 .. 1e-3 of one point that is not the origin, several
     generations in a row.  Every individual an engine hands back must carry exactly the objective
@@ -53,8 +53,11 @@ def slice_contracted(ctx, rng, n_cases):
         spread = float(rng.choice([1e-9, 1e-8, 1e-7, 1e-6, 1e-4, 1e-3]))
         offset = float(rng.choice([0.0, 250.0]))
 
-        def f(x, offset=offset):
+        seen_calls = []
+
+        def f(x, offset=offset, seen_calls=seen_calls):
             x = np.asarray(x, dtype=float)
+            seen_calls.append(tuple(float(t) for t in x))
             return offset + float(np.sum((x - 1.0) ** 2)) + float(np.sum(np.cos(3.0 * x)))
 
         bounds = np.array([[-5.0, 5.0]] * d)
@@ -87,8 +90,16 @@ def slice_contracted(ctx, rng, n_cases):
         pop = parents
         bad = None
         try:
+            bad11 = None
             for g in range(int(rng.integers(2, 6))):
+                prev = {(tuple(float(t) for t in q.genome), float(q.fitness)) for q in pop}
+                seen_calls.clear()
                 pop = eng.run(pop, **kw)
+                fresh = set(seen_calls)
+                for ind in pop:
+                    key = (tuple(float(t) for t in ind.genome), float(ind.fitness))
+                    if bad11 is None and key not in prev and key[0] not in fresh:
+                        bad11 = (g, list(key[0]), key[1])
                 for ind in pop:
                     true = f(ind.genome)
                     if not (ind.fitness == true):
@@ -109,8 +120,12 @@ def slice_contracted(ctx, rng, n_cases):
         sl.nontrivial.add((name, spread, offset, mx, n, d, tuple(np.round(centre, 6))))
         if bad:
             sl.violations.append({"signature": "C02/stale-fitness-in-engine-run", "detail": f"{name} on a population within {spread:g} of one point: generation {bad[0] + 1} contains genome {bad[1]} with stored fitness {bad[2]!r} but the objective there is {bad[3]!r}", "replay": {"engine": name, "spread": spread, "offset": offset, "maximize": mx}})
+        if bad11:
+            sl.violations.append({"signature": "C11/not-from-previous-generation(engine-run)", "detail": f"{name} on a population within {spread:g} of one point: generation {bad11[0] + 1} contains genome {bad11[1]} (fitness {bad11[2]!r}) that is neither an individual of the preceding generation nor a point evaluated while this generation was made", "replay": {"engine": name, "spread": spread, "offset": offset, "maximize": mx}})
         if sl.cases <= 2:
             sl.sample({"engine": name, "n": n, "d": d, "spread": spread, "offset": offset, "maximize": mx})
+    if only is not None:
+        sl.violations = [v for v in sl.violations if v["signature"].startswith(only)]
     return sl
 
 
